@@ -7,7 +7,7 @@ PROP=$1; TIER=${2:-quick}; shift; shift || true
 SEED=${VERIF_SEED:-1}
 TIER=${VERIF_TIER_OVERRIDE:-$TIER}
 cd "$VERIF"
-WORK=$(mktemp -d /var/tmp/verif-run-XXXXXX)
+if [ -d /dev/shm ] && [ -w /dev/shm ]; then WORK=$(mktemp -d /dev/shm/verif-run-XXXXXX); else WORK=$(mktemp -d /var/tmp/verif-run-XXXXXX); fi
 trap 'rm -rf "$WORK"' EXIT
 if ! "$VERIF/build.sh" >"$WORK/build.log" 2>&1; then
   echo "BUILD-FAILED (harness does not compile against /repo working tree)"; tail -40 "$WORK/build.log"; exit 2
